@@ -99,6 +99,35 @@ def _encoder_roles(enc):
     return m
 
 
+def _written_opcode(m, g, n, c):
+    """First byte of the frame a `self._write(X)` call writes: X a bytes constant, or a local built as bytearray(b'\\x8?') (+ tail)."""
+    if not c.args:
+        return None
+    a = c.args[0]
+    if isinstance(a, ast.Constant) and isinstance(a.value, bytes) and a.value:
+        return a.value[0]
+    if isinstance(a, ast.Name):
+        vals = set()
+        todo, seen = [n], set()
+        while todo:
+            at = todo.pop()
+            for d in Q.reaching_defs(g, at, a.id):
+                if d in seen:
+                    continue
+                seen.add(d)
+                if d.kind == 'stmt' and isinstance(d.ast, ast.AugAssign) and isinstance(d.ast.op, ast.Add):
+                    todo.append(d)        # `frame += tail` appends: the first byte is that of the value before
+                    continue
+                v = getattr(d.ast, 'value', None) if d.kind == 'stmt' and isinstance(d.ast, ast.Assign) else None
+                if isinstance(v, ast.Call) and call_name(v) == 'bytearray' and len(v.args) == 1 and isinstance(v.args[0], ast.Constant) and isinstance(v.args[0].value, bytes) and v.args[0].value:
+                    vals.add(v.args[0].value[0])
+                else:
+                    vals.add(None)
+        if len(vals) == 1:
+            return vals.pop()
+    return None
+
+
 def _xor_loops(fnode, how):
     """Loops `for i, c in enumerate(P): <sink>(c ^ K[i % 4])`, whatever the loop variables are called; sink = X.append(...) or X[i] = ...  Returns [(P, K)]."""
     out = []
@@ -335,6 +364,17 @@ def rule_c(chk, cls):
             chk.ob('c', m.ref, 'the frame is masked iff this endpoint is a client (no server-side socket)', ok, loc(m, c), detail=f'`{src(c)}`',
                    discr=f'mask-iff-client:{m.name}')
     need(n_sites >= 2, f'C17.c: only {n_sites} encode sites, 2 confirmed by hand')
+    # … and every frame goes through the encoder: a frame written as a ready-made byte string would bypass the masking decision
+    raw = []
+    for m in cls.methods.values():
+        if getattr(m, 'absorbed', False) or m.name == '_write':
+            continue
+        for r, c in pat.method_calls(m.node, '_write'):
+            if r == 'self' and c.args and isinstance(c.args[0], ast.Constant):
+                raw.append((m, c))
+    chk.ob('c', cls.methods['_write'].ref, 'no frame is written as a ready-made constant: every frame gets its length byte and mask from the encoder (a client must mask all '
+                                           'frames, control frames included)', not raw, loc(raw[0][0], raw[0][1]) if raw else loc(cls.methods['_write'], cls.methods['_write'].node),
+           detail='; '.join(f'{m.name}: `{src(c)}`' for m, c in raw), discr='all-frames-through-encoder')
 
 
 def rule_d(chk, f):
@@ -396,6 +436,31 @@ def rule_e(repo, chk, cls, f):
         seen, _ = Q.search([n])
         chk.ob('e', f.ref, 'after a close frame no further message of the same read is delivered', not any(d in seen for d in deliver), loc(f, n.ast),
                discr='close-stops-decoding')
+    # the frame loop is left only by its exits that keep the undecoded rest or end decoding for good (close): a `return` from inside the loop drops what
+    # follows in the same read
+    inner_rets = [r for r in rets if any(k == 'loop' and not getattr(a, '_synthetic_once', False) for k, a in r.ctx)]
+    chk.ob('e', f.ref, 'decoding never returns from inside the frame loop (the bytes that follow the current frame in the same read would be dropped)', not inner_rets,
+           loc(f, inner_rets[0].ast) if inner_rets else loc(f, f.node), discr='no-return-inside-frame-loop')
+    # a close frame ends the stream: what was decoded before it in the same read is delivered before the close event is fired
+    closes_ = [n for n in g.nodes if n.kind == 'stmt' and any(pat.event_ctor_name(e) == 'close' for _c, _r, e in pat.fire_calls(n.ast))]
+    flush = [n for n in g.nodes if n.kind == 'for' and src(n.ast.iter) == lst and any(pat.event_ctor_name(e) == 'read' for _c, _r, e in pat.fire_calls(n.ast))]
+    for n in closes_:
+        q = Q.reachable_without(g, n, avoid_node=lambda m: m in flush)
+        # nothing is appended between the delivery loop and the close
+        late = [d for d in g.nodes if d.kind == 'stmt' and any(r == lst for r, _c in pat.method_calls(d.ast, 'append')) and any(Q.reaches(fl, d) and Q.reaches(d, n) and
+                                                                                                                                not Q.reaches(n, fl) for fl in flush)]
+        chk.ob('e', f.ref, 'the messages decoded before a close frame are delivered (read events) before the close event is fired', q is None and bool(flush) and not late,
+               loc(f, n.ast), path=pat.path_lines(q) if q else None, discr='close-after-reads')
+    if flush:
+        resets = [n for n in g.nodes if n.kind == 'stmt' and isinstance(n.ast, ast.Assign) and src(n.ast.targets[0]) == lst and isinstance(n.ast.value, ast.List) and not n.ast.value.elts
+                  and any(Q.reaches(fl, n) for fl in flush) and n is not g.entry and any(k == 'loop' for k, _a in n.ctx)]
+        p = None
+        for fl in flush:
+            exits_ = [e.dst for e in fl.succ if e.kind == 'F']
+            for x in exits_:
+                p = p or (Q.escapes(g, [x], lambda m: m in resets) if x not in resets else None)
+        chk.ob('e', f.ref, 'messages delivered by the decoder itself are not returned (and delivered) a second time', p is None and bool(resets), loc(f, flush[0].ast),
+               discr='delivered-once')
     # pong
     pong = [n for n in g.nodes if n.kind == 'stmt' and isinstance(n.ast, ast.Assign) and "b'\\x8a'" in src(n.ast.value)]
     chk.ob('e', f.ref, 'a ping is answered with a pong frame (FIN + opcode 10)', bool(pong), loc(f, f.node), discr='pong-exists')
@@ -419,8 +484,7 @@ def rule_e(repo, chk, cls, f):
         for n in gm.nodes:
             if n.kind != 'stmt':
                 continue
-            cw = [c for r, c in pat.method_calls(n.ast, '_write') if r == 'self' and c.args and isinstance(c.args[0], ast.Constant) and isinstance(c.args[0].value, bytes)
-                  and c.args[0].value[:1] == b'\x88']
+            cw = [c for r, c in pat.method_calls(n.ast, '_write') if r == 'self' and _written_opcode(m, gm, n, c) == 0x88]
             if not cw:
                 continue
             n_close += 1
@@ -479,10 +543,21 @@ def rule_e(repo, chk, cls, f):
     for n in txt:
         q = pat.guarded_by(gw, n, pat.test_edge(lambda t, pol: pol == 'T' and isinstance(t, ast.Call) and call_name(t) == 'isinstance' and len(t.args) == 2 and src(t.args[1]) == 'str'))
         chk.ob('e', w.ref, 'the text opcode is used for str payloads only', q is None, loc(w, n.ast), discr='text-for-str')
+    # the codec writes (pong) and delivers on channels it only knows once it is registered: nothing is decoded in the constructor
+    ini = cls.methods['__init__']
+    early = [c for c in calls_in(ini.node) if isinstance(c.func, ast.Attribute) and src(c.func.value) == 'self' and c.func.attr in ('_parse_messages', '_write', 'fire', 'fireEvent')]
+    chk.ob('e', ini.ref, 'the constructor decodes nothing (bytes that came with the handshake are kept for the registered handler): a ping among them must be answered '
+                         'on the parent\'s channel, which is unknown before registration', not early, loc(ini, early[0]) if early else loc(ini, ini.node),
+           detail='; '.join(src(c)[:50] for c in early), discr='no-decoding-before-registration')
+    regh = cls.methods.get('_on_registered')
+    okr = regh is not None and any(isinstance(c.func, ast.Attribute) and c.func.attr == '_parse_messages' for c in calls_in(regh.node))
+    keeps = any(isinstance(n, ast.Assign) and src(n.targets[0]) == 'self._buffer' and ini.params[2] in Q.names_used(n.value) for n in walk_no_defs(ini.node)) if len(ini.params) > 2 else False
+    chk.ob('e', ini.ref, 'the bytes given to the constructor become the initial carry and are decoded when the codec is registered', okr and keeps,
+           loc(ini, ini.node), discr='initial-bytes-decoded-on-registration')
     cl = need(cls.methods.get('_on_close'), 'C17.e: close handler missing')
     chk.touch(cl)
     gc = cl.cfg()
     sent = [n for n in gc.nodes if n.kind == 'stmt' and 'self' in pat.stores_attr(n.ast, '_close_sent', True)]
-    cw = [n for n in gc.nodes if n.kind == 'stmt' and any(r == 'self' and "b'\\x88" in src(c) for r, c in pat.method_calls(n.ast, '_write'))]
+    cw = [n for n in gc.nodes if n.kind == 'stmt' and any(r == 'self' and _written_opcode(cl, gc, n, c) == 0x88 for r, c in pat.method_calls(n.ast, '_write'))]
     ok = bool(sent) and bool(cw) and all(pat.guarded_by(gc, n, pat.test_edge(lambda t, pol: pol == 'F' and src(t) == 'self._close_sent')) is None for n in cw)
     chk.ob('e', cl.ref, 'the close frame is written once and recorded as sent', ok, loc(cl, cl.node), discr='close-sent-once')
